@@ -4,3 +4,4 @@ from . import exit_codes  # noqa: F401
 from . import scan_engine  # noqa: F401
 from . import plugin_engine  # noqa: F401
 from . import providers  # noqa: F401
+from . import structural  # noqa: F401
